@@ -82,7 +82,7 @@ CHECKS = {
              "one-shot numpy reference pipeline for several (num_subblocks, blocks_per_file) per configuration.",
         design="3/C02", technique="source-regenerated scalar kernels (tools/py2v.py) proved equal to the model + Coq proof (Z layout arithmetic by nia, finite nibble table, chunking corollary) + write-log and byte-level correspondence"),
     "C04": dict(
-        text="Theorems: every valid card renders to exactly 80 bytes; padding is (-80n) mod 512 under DIRECTIO (aligned, < 512, zero when "
+        text="Theorems: every valid card renders to exactly 80 bytes and differs from the END card whatever its keyword (ENDTIME-like keys included); padding is (-80n) mod 512 under DIRECTIO (aligned, < 512, zero when "
              "already aligned) and 0 otherwise; an independent reader recovers exactly the emitted blocks for every number of cards (all "
              "header lengths mod 512) and any data; pipeline-owned keys always carry the configuration's values whatever the caller "
              "supplied, every other caller card survives template and configuration; the library's block counters return the number of "
